@@ -304,12 +304,16 @@ def drive_server(reqs):
 
     srv._read_packet = read_packet
     srv._send_packet = send_packet
-    srv.start_subsystem("sftp", None, _FakeChannel())
+    died = None
+    try:
+        srv.start_subsystem("sftp", None, _FakeChannel())
+    except Exception as e:  # noqa - the serving loop itself died: nothing is answered any more
+        died = "%s: %s" % (type(e).__name__, e)
     per = [[] for _ in reqs]
     for i, t, p in sent:
         if i >= 1:
             per[i - 1].append(parse_response(t, p))
-    return per, cf_out, state["i"]
+    return per, cf_out, state["i"], died
 
 
 CB_SENSIBLE = {
@@ -520,11 +524,19 @@ def server_part(ctx, nstreams):
             continue
         if st == "exc":
             raise res
-        per, cf_out, consumed = res
-        if consumed != len(reqs) + 1:
-            ctx.fail("server-stops-answering", "the server loop ended before the end of the request stream",
-                     case={"reqs": [(q["t"], q["id"], q["hbytes"], q["cb"]) for q in reqs]},
-                     expected=len(reqs) + 1, observed=consumed)
+        per, cf_out, consumed, died = res
+        if died is not None or consumed != len(reqs) + 1:
+            k = max(0, min(consumed, len(reqs)) - 1)
+            ctx.fail("server-stops-answering",
+                     "the serving loop of SFTPServer.start_subsystem ended at request %d (type %d, id %d) of the "
+                     "stream%s: that request and every later one get no response"
+                     % (k, reqs[k]["t"], reqs[k]["id"], " with " + died if died else ""),
+                     case={"request_stream": [(q["t"], q["id"], q["hbytes"], q["cb"], q["text_ok"], q["tag"],
+                                               q["shape"]) for q in reqs[:k + 1]],
+                           "stopped_at": k},
+                     expected="%d requests answered" % len(reqs), observed="%d requests read; %s" % (consumed - 1, died))
+            reqs = reqs[:k + 1]
+            per = per[:k + 1]
         flat = []
         for i, (q, packets) in enumerate(zip(reqs, per)):
             t = q["t"]
@@ -568,7 +580,11 @@ def server_part(ctx, nstreams):
         metas.append(reqs)
         if s == 0:
             ctx.sample({"server_stream": [(q["t"], q["id"], q["hbytes"], q["cb"]) for q in reqs], "responses": per})
-    bad = ctx.model_mismatches("run_server", "(list req)", cases, shard=60)
+    try:
+        bad = ctx.model_mismatches("run_server", "(list req)", cases, shard=60)
+    except Exception as e:  # noqa - the oracle above does not depend on the model
+        ctx.disagree("model evaluation failed: %r" % (e,))
+        bad = []
     for i in bad[:3]:
         ctx.disagree("SFTPServer responses differ from the model on a request stream",
                      case={"reqs": [(q["t"], q["id"], q["hbytes"], q["cb"], q["text_ok"], q["tag"], q["shape"])
@@ -793,7 +809,11 @@ def client_part(ctx, nprogs):
         cases.append((coq_prog(prog), impl))
         if j == 1:
             ctx.sample({"client_program": prog[:12], "outcomes": impl[:12]})
-    bad = ctx.model_mismatches("run_client", "(list op)", cases, shard=40)
+    try:
+        bad = ctx.model_mismatches("run_client", "(list op)", cases, shard=40)
+    except Exception as e:  # noqa
+        ctx.disagree("model evaluation failed: %r" % (e,))
+        bad = []
     for i in bad[:3]:
         ctx.disagree("client operation outcomes differ from the model", case={"program": progs[i][:300]},
                      impl=cases[i][1])
@@ -998,6 +1018,18 @@ def live_part(ctx, nprogs, only=None):
         sess.close()
 
 
+def cross_check_constants(ctx):
+    """The numbers this harness writes by hand must be the ones of the working tree."""
+    import paramiko.sftp as m
+    for name, v in CMD.items():
+        if getattr(m, "CMD_" + name, None) != v:
+            ctx.disagree("harness packet-type table differs from paramiko.sftp", case={"name": "CMD_" + name},
+                         model=v, impl=getattr(m, "CMD_" + name, None))
+    if sorted(m.CMD_NAMES) != sorted(CMD.values()):
+        ctx.disagree("CMD_NAMES key set differs from the harness table", model=sorted(CMD.values()),
+                     impl=sorted(m.CMD_NAMES))
+
+
 def run(ctx):
     scale = 8 if ctx.thorough else 1
     ctx.rule = ("seeded generator (random.Random('C30-<seed>')): server request streams of 4..15 requests over all "
@@ -1013,14 +1045,21 @@ def run(ctx):
                     "the results of the handle.read calls _check_file makes are oracle inputs of the model (recorded from the run)"]
     ctx.assumptions += ["request numbers stay below 2^32", "the channel delivers packets in order (C17/C21)",
 ]
-    ctx.prove(GENS)
-    t0 = time.time()
-    server_part(ctx, 150 * scale)
-    t1 = time.time()
-    client_part(ctx, 60 * scale)
-    t2 = time.time()
-    live_part(ctx, 4 * (3 if ctx.thorough else 1))
-    ctx.log("timing: server %.1fs client %.1fs live %.1fs" % (t1 - t0, t2 - t1, time.time() - t2))
+    try:
+        ctx.prove(GENS)
+    except Exception as e:  # noqa - proofs / translator broken: the oracles below still run
+        ctx.disagree("proof build failed: %r" % (e,))
+    cross_check_constants(ctx)
+    for name, fn in (("server", lambda: server_part(ctx, 150 * scale)),
+                     ("client", lambda: client_part(ctx, 60 * scale)),
+                     ("live", lambda: live_part(ctx, 4 * (3 if ctx.thorough else 1)))):
+        t0 = time.time()
+        try:
+            fn()
+        except Exception:  # noqa
+            import traceback
+            ctx.disagree("the %s part of the check raised" % name, impl=traceback.format_exc()[-1500:])
+        ctx.log("timing: %s %.1fs" % (name, time.time() - t0))
 
 
 def replay(ctx, rep):
